@@ -2438,6 +2438,13 @@ evdns_server_request_format_response(struct server_request *req, int err)
 	int i;
 	u16 flags;
 	struct dnslabel_table table;
+	/* What the client can take: the advertised UDP size, or what the
+	 * 16-bit length prefix of a TCP message can express. */
+	const off_t limit = req->client ? 65535 : req->max_udp_reply_size;
+	/* End of the last question/record that fits completely, and how many
+	 * of each section do. */
+	off_t fit_end = 12; /* the header always fits */
+	u16 fit_count[4] = { 0, 0, 0, 0 };
 
 	if (err < 0 || err > 15) return -1;
 
@@ -2464,6 +2471,10 @@ evdns_server_request_format_response(struct server_request *req, int err)
 		}
 		APPEND16(req->base.questions[i]->type);
 		APPEND16(req->base.questions[i]->dns_question_class);
+		if (j <= limit) {
+			fit_end = j;
+			++fit_count[0];
+		}
 	}
 
 	/* Add answer, authority, and additional sections. */
@@ -2506,12 +2517,22 @@ evdns_server_request_format_response(struct server_request *req, int err)
 				}
 			}
 			item = item->next;
+			if (j <= limit) {
+				fit_end = j;
+				++fit_count[i+1];
+			}
 		}
 	}
 
-	if (j > req->max_udp_reply_size && !req->client) {
+	if (j > limit) {
 overflow:
-		j = req->max_udp_reply_size;
+		/* Send only whole records, and make the header counts describe
+		 * what is really there. */
+		j = fit_end;
+		for (i = 0; i < 4; ++i) {
+			t_ = htons(fit_count[i]);
+			memcpy(buf + 4 + 2*i, &t_, 2);
+		}
 		buf[2] |= 0x02; /* set the truncated bit. */
 	}
 
